@@ -25,7 +25,7 @@ RULE = (
     ' Every third folder case (two parameters; the line-up often reversed before the first batch) is drawn with the real plot_sampling / plot_convergence / plot_sampling_batch_nums under the Agg backend and every legend is read back: the text next to a handle must be the class name of the id seaborn itself labelled that handle with.'
 )
 ASSUMPTIONS = ["sampler classes are identified by their class name, as the library does"]
-REQUIRED_COUNTERS = {"lineups_reversed_before_the_first_batch": 2, "runs_drawn_whose_ids_first_appear_out_of_order": 2, "runs_drawn_with_the_plotting_utilities": 5, "plot_legend_entries_judged": 20, "user_subclasses_of_a_built_in": 8, "user_classes_with_a_name_attribute": 2, "folder_holds_a_stale_temporary_params_file": 8, "sampler_objects_shared_with_a_calibrator_of_another_order": 2, "replacements_before_the_first_batch": 6, "highest_id_retired_then_new_class_added": 4, "scheduler_extended_in_place_and_announced_again": 4, "folder_holds_no_batch_checkpoint_of_another_lineup": 5, "failed_batches_then_continued": 10, "rl_scheduler_cases": 5, "moved_checkpoints": 10, "folder_reused_by_other_run": 20, "tables_checked": 80, "rows_attributed": 150, "helper_calls": 40, "restores": 40, "dropped_class_checkpoints": 6,
+REQUIRED_COUNTERS = {"lineups_reversed_before_the_first_batch": 2, "runs_drawn_whose_ids_first_appear_out_of_order": 2, "runs_drawn_with_the_plotting_utilities": 5, "plot_legend_entries_judged": 20, "user_subclasses_of_a_built_in": 4, "user_classes_with_a_name_attribute": 2, "folder_holds_a_stale_temporary_params_file": 8, "sampler_objects_shared_with_a_calibrator_of_another_order": 2, "replacements_before_the_first_batch": 6, "highest_id_retired_then_new_class_added": 4, "scheduler_extended_in_place_and_announced_again": 4, "folder_holds_no_batch_checkpoint_of_another_lineup": 5, "failed_batches_then_continued": 10, "rl_scheduler_cases": 5, "moved_checkpoints": 10, "folder_reused_by_other_run": 20, "tables_checked": 80, "rows_attributed": 150, "helper_calls": 40, "restores": 40, "dropped_class_checkpoints": 6,
                      "user_defined_classes": 5, "set_scheduler_ops": 5, "old_format_fixture": 1}
 SHARDS = {"quick": 16, "thorough": 16}
 SHARD_WATCHDOG = {"quick": 1500, "thorough": 10800}
